@@ -1855,3 +1855,122 @@ Proof.
       as [sp [inn [_ [HI [_ [H1 [H2 _]]]]]]].
     exists sp, inn. split; [exact HI|]. split; [rewrite H1|rewrite H2]; reflexivity.
 Qed.
+
+(* ------------------------------------------------------------------ *)
+(* every state the loop can reach: start state, then any sequence of events each of which
+   the selection can produce (an actor present in the chosen transition's _ListDict_) *)
+Inductive reachable (g : graph) (rstat : list N) (full : bool) (s0 : sst) : sst -> Prop :=
+| reach_start : reachable g rstat full s0 s0
+| reach_event : forall s t i a sl s',
+    reachable g rstat full s0 s ->
+    nth_error (s_sp s ++ s_in s) i = Some sl -> sabs sl a <> None ->
+    fire g rstat full t s (i, a) = Ok s' ->
+    reachable g rstat full s0 s'.
+
+Lemma reachable_inv : forall g (Hg : wfg2 g) rstat full s0 s,
+  SInv g s0 -> RInv g rstat s0 -> reachable g rstat full s0 s ->
+  SInv g s /\ RInv g rstat s /\
+  map sl_tr (s_sp s) = map sl_tr (s_sp s0) /\ map sl_tr (s_in s) = map sl_tr (s_in s0).
+Proof.
+  intros g Hg rstat full s0 s HI HR Hr. induction Hr as [|s t i a sl s' Hr IH Hnth Ha Hfire].
+  - split; [exact HI|]. split; [exact HR|]. split; reflexivity.
+  - destruct IH as [HIs [HRs [F1 F2]]].
+    destruct (fire_ok g Hg rstat full t s i a sl HIs Hnth Ha) as [s1 [E [HI1 [_ [G1 G2]]]]].
+    assert (Es : s1 = s') by congruence. subst s1.
+    destruct (fire_counts g Hg rstat full t s i a sl s' HIs HRs Hnth Ha Hfire) as [HR' _].
+    split; [exact HI1|]. split; [exact HR'|]. split; congruence.
+Qed.
+
+(* and from a reachable state every selectable event fires: the loop never raises on the
+   way (the only Fail left in [loop] are fuel and the full-data constructor in [finish]) *)
+Lemma reachable_never_stuck : forall g (Hg : wfg2 g) rstat full s0 s t i a sl,
+  SInv g s0 -> RInv g rstat s0 -> reachable g rstat full s0 s ->
+  nth_error (s_sp s ++ s_in s) i = Some sl -> sabs sl a <> None ->
+  exists s', fire g rstat full t s (i, a) = Ok s' /\ reachable g rstat full s0 s'.
+Proof.
+  intros g Hg rstat full s0 s t i a sl HI HR Hr Hnth Ha.
+  destruct (reachable_inv g Hg rstat full s0 s HI HR Hr) as [HIs _].
+  destruct (fire_ok g Hg rstat full t s i a sl HIs Hnth Ha) as [s' [E _]].
+  exists s'. split; [exact E|]. eapply reach_event; eassumption.
+Qed.
+
+(* ------------------------------------------------------------------ *)
+(* the masses of the selection sum to 1: [law (select s)] is a probability distribution *)
+Lemma mass_app : forall A (d1 d2 : dist A), mass (d1 ++ d2) == mass d1 + mass d2.
+Proof. intros A d1 d2. unfold mass. rewrite map_app. apply sumQ_app. Qed.
+
+Lemma mass_scale : forall A p (d : dist A), mass (scale p d) == p * mass d.
+Proof.
+  intros A p d. unfold mass, scale. rewrite map_map. cbn [snd].
+  apply (sumQ_map_scale _ p (fun aw => snd aw)).
+Qed.
+
+Lemma mass_concat_map : forall A B (F : B -> dist A) (l : list B),
+  mass (concat (map F l)) == sumQ (map (fun x => mass (F x)) l).
+Proof.
+  intros A B F l. induction l as [|x l IH]; [reflexivity|].
+  cbn [map concat]. rewrite mass_app, sumQ_cons, IH. reflexivity.
+Qed.
+
+Lemma map_snd_combine_seq : forall (ps : list Q) start, map snd (combine (seq start (length ps)) ps) = ps.
+Proof.
+  induction ps as [|p ps IH]; intro start; [reflexivity|].
+  cbn [length seq combine map snd]. rewrite IH. reflexivity.
+Qed.
+
+Lemma sumQ_div : forall (A : Type) (f : A -> Q) (c : Q) l,
+  sumQ (map (fun x => f x / c) l) == sumQ (map f l) / c.
+Proof.
+  intros A f c l. induction l as [|a l IH]; cbn [map]; [unfold sumQ; cbn [fold_right]; unfold Qdiv; ring|].
+  rewrite !sumQ_cons, IH. unfold Qdiv. ring.
+Qed.
+
+Lemma choose_mass : forall (L : kld) (i : nat), kinv L ->
+  ld_total_weight key L * mass (law (Choose (weighted L) (kl_cands L) (fun a => Ret (i, a)))) ==
+  ld_total_weight key L.
+Proof.
+  intros L i Hinv. cbn [law]. rewrite mass_concat_map.
+  assert (E : sumQ (map (fun cw : key * Q => mass (scale (if weighted L then snd cw / wsum (kl_cands L)
+                                 else 1 / Qnat (length (kl_cands L))) [((i, fst cw), 1)])) (kl_cands L)) ==
+              sumQ (map (fun cw : key * Q => if weighted L then snd cw / wsum (kl_cands L)
+                                 else 1 / Qnat (length (kl_cands L))) (kl_cands L))).
+  { apply sumQ_map_ext_in. intros cw _. rewrite mass_scale. unfold mass. cbn [map snd]. unfold sumQ. cbn [fold_right]. ring. }
+  rewrite E. clear E. pose proof (total_weight_aw L Hinv) as Htw.
+  destruct (weighted L) eqn:Ew.
+  - rewrite (sumQ_div _ (fun cw : key * Q => snd cw)).
+    change (sumQ (map (fun cw : key * Q => snd cw) (kl_cands L))) with (wsum (kl_cands L)).
+    rewrite kl_cands_wsum, <- Htw.
+    destruct (Qeq_dec (ld_total_weight key L) 0) as [Ez|Ez]; [rewrite Ez; ring|]. field. exact Ez.
+  - rewrite sumQ_map_const, kl_cands_length. unfold ld_total_weight. rewrite Ew.
+    destruct (items L) as [|x r]; [cbn [length]; unfold Qnat; cbn; ring|].
+    assert (H : 0 < Qnat (length (x :: r))) by (apply Qnat_pos; cbn [length]; lia).
+    field. lra.
+Qed.
+
+Lemma select_mass_one : forall g s, SInv g s -> 0 < total_rate s -> mass (law (select s)) == 1.
+Proof.
+  intros g s HI Htot. unfold select. cbn [law]. rewrite mass_concat_map, map_length.
+  set (slots := s_sp s ++ s_in s). set (ps := map (fun sl => slot_rate sl / total_rate s) slots).
+  assert (E : sumQ (map (fun ip : nat * Q => mass (scale (snd ip)
+                 (law match nth_error slots (fst ip) with
+                      | Some sl => Choose (weighted (sl_pot sl)) (kl_cands (sl_pot sl)) (fun actor => Ret (fst ip, actor))
+                      | None => Fail IndexErr
+                      end))) (combine (seq 0 (length slots)) ps)) ==
+              sumQ (map snd (combine (seq 0 (length slots)) ps))).
+  { apply sumQ_map_ext_in. intros [i p] Hin. cbn [fst snd]. rewrite mass_scale.
+    replace (length slots) with (length ps) in Hin by apply map_length.
+    apply in_combine_seq in Hin. destruct Hin as [_ Hn]. rewrite Nat.sub_0_r in Hn.
+    unfold ps in Hn. rewrite nth_error_map in Hn.
+    destruct (nth_error slots i) as [sl|] eqn:En; [|discriminate]. cbn [option_map] in Hn.
+    injection Hn as Hn. subst p. unfold slot_rate.
+    pose proof (slot_inv_of g s sl HI (nth_error_In _ _ En)) as Hok.
+    pose proof (choose_mass (sl_pot sl) i (so_inv sl Hok)) as Hm.
+    unfold Qdiv.
+    transitivity (tr_rate (sl_tr sl) * / total_rate s *
+                  (ld_total_weight key (sl_pot sl) *
+                   mass (law (Choose (weighted (sl_pot sl)) (kl_cands (sl_pot sl)) (fun a => Ret (i, a)))))); [ring|].
+    rewrite Hm. ring. }
+  rewrite E. replace (length slots) with (length ps) by apply map_length.
+  rewrite map_snd_combine_seq. unfold ps. rewrite (sumQ_div _ slot_rate). unfold slots.
+  change (sumQ (map slot_rate (s_sp s ++ s_in s))) with (total_rate s). field. lra.
+Qed.
